@@ -78,7 +78,7 @@ func TestC08(t *testing.T) {
 		// fresh-process baselines
 		var all []ops.Op
 		for _, k := range ops.OpKinds {
-			if k == "encode" {
+			if strings.HasPrefix(k, "encode") {
 				for i := range pool.Specs {
 					all = append(all, ops.Op{Kind: k, Idx: i}, ops.Op{Kind: k, Idx: i, BE: true})
 				}
@@ -123,7 +123,7 @@ func TestC08(t *testing.T) {
 		// the same call as first call of two fresh processes must agree
 		// (Encode determinism across processes): run the encode baselines twice
 		for _, op := range all {
-			if op.Kind != "encode" {
+			if !strings.HasPrefix(op.Kind, "encode") {
 				continue
 			}
 			js, _ := json.Marshal(op)
@@ -137,10 +137,23 @@ func TestC08(t *testing.T) {
 			}
 		}
 
+		// library state, if any, outlives a rapid case: the history that
+		// matters for a failure is everything this process has called so far
+		var procHist []ops.Op
 		step := func(h *history, files map[int]*fit.File, op ops.Op) (string, bool) {
 			h.Ops = append(h.Ops, op)
+			procHist = append(procHist, op)
 			got := ops.Hash(ops.Run(pool, op, files))
 			if want := baseline[op.String()]; got != want {
+				if len(procHist) > len(h.Ops) {
+					// replay needs the calls of earlier cases too (bounded)
+					from := len(procHist) - 400
+					if from < 0 {
+						from = 0
+					}
+					h.Ops = append([]ops.Op(nil), procHist[from:]...)
+					h.Note = "includes the calls of earlier generated histories in the same process"
+				}
 				prev := "none"
 				if len(h.Ops) > 1 {
 					prev = fmt.Sprint(h.Ops[:len(h.Ops)-1])
@@ -202,7 +215,7 @@ func TestC08(t *testing.T) {
 				k := k
 				actions[k] = func(rt *rapid.T) {
 					op := ops.Op{Kind: k}
-					if k == "encode" {
+					if strings.HasPrefix(k, "encode") {
 						op.Idx = d.Int(0, len(pool.Specs)-1, "spec")
 						op.BE = d.Bool("be")
 					} else {
@@ -234,7 +247,7 @@ func TestC08(t *testing.T) {
 }
 
 func name(p *ops.Pool, op ops.Op) string {
-	if op.Kind == "encode" {
+	if strings.HasPrefix(op.Kind, "encode") {
 		return fmt.Sprintf("File spec %d (type %d)", op.Idx, p.Specs[op.Idx].Type)
 	}
 	return p.Names[op.Idx]
